@@ -11,7 +11,9 @@
  * (so SIMD head/body/tail code runs on mixed neighbours).  The implementation chain is whatever
  * PIXMAN_DISABLE selects for this process.
  * The oracle evaluates the C01 Spec (Render factor table, rnd(x*y)=(2xy+255)/510, saturating sum,
- * bit-replicated fetch, truncating store) independently of the Lean model and of the library. */
+ * bit-replicated fetch, truncating store; for the 8 integer PDF blend modes the exact integer numerator rule on
+ * every format and the real-valued PDF equation within the proved 127/255 (Multiply 381/255) of a step)
+ * independently of the Lean model and of the library. */
 #ifdef HAVE_CONFIG_H
 #include <config.h>
 #endif
@@ -94,6 +96,7 @@ static uint32_t defined_bits(pixman_format_code_t f)
 static uint32_t all_bits(pixman_format_code_t f) { int bpp = PIXMAN_FORMAT_BPP(f); return bpp == 32 ? 0xffffffffu : (1u << bpp) - 1; }
 
 /* ---------------------------------------------------------------- Spec of C01 */
+static long n_blend_exact, n_blend_real, n_blend_real_claim;   /* requests judged by the blend-mode oracles */
 static int rnd255(int x, int y) { return (2 * x * y + 255) / 510; }
 /* factor kinds: 0 zero, 1 one, 2 alpha, 3 1-alpha */
 static const int FA[13] = {0, 1, 0, 1, 3, 2, 0, 3, 0, 2, 3, 3, 1};
@@ -123,36 +126,81 @@ static uint32_t spec_pd(int op, uint32_t s, int has_mask, int ca, uint32_t m, ui
     }
     return out;
 }
-/* real-valued PDF separable blend (ISO 32000 11.3.5) on premultiplied inputs, result in 1/255 units */
-static double blendf(int op, double d, double da, double s, double sa)
+/* ---- integer PDF blend modes (Spec.PdfInt, Props/C01.lean pdfSeparable{U,Ca}_exact, combineMultiply*_spec):
+ * exact for ALL inputs.  num = (255-sa)*d + (255-da)*s + 255^2*as*ab*B(cb/ab, cs/as) as an integer polynomial;
+ * channel = num/255 to nearest after clamping to 255^2; alpha = (255*da + 255*sa - sa*da)/255 to nearest.
+ * Multiply: three products rounded separately, saturating sum. */
+static long blend_num(int op, long d, long da, long s, long sa)
 {
+    long a = sa * d, b = da * s;
     switch (op) {
-    case 0x30: return d * s;
     case 0x31: return s * da + d * sa - s * d;
     case 0x32: return 2 * d < da ? 2 * s * d : sa * da - 2 * (da - d) * (sa - s);
-    case 0x33: return s * da > d * sa ? d * sa : s * da;
-    case 0x34: return s * da > d * sa ? s * da : d * sa;
+    case 0x33: return a < b ? a : b;
+    case 0x34: return a > b ? a : b;
     case 0x37: return 2 * s < sa ? 2 * s * d : sa * da - 2 * (da - d) * (sa - s);
-    case 0x39: return fabs(d * sa - s * da);
+    case 0x39: return a > b ? a - b : b - a;
     case 0x3a: return s * da + d * sa - 2 * d * s;
     }
     return 0;
 }
-/* returns 1 if inputs are valid premultiplied (then *lo..*hi bound every channel), else 0 */
-static int spec_blend_check(int op, uint32_t s, int has_mask, int ca, uint32_t m, uint32_t d, uint32_t got, char *why)
+static int rnd_div255(long x) { return (int)((2 * x + 255) / 510); }
+/* the exact Spec pixel; *neg set if a numerator is negative (the theorem num_nonneg says: never) */
+static uint32_t spec_blend_exact(int op, uint32_t s, int has_mask, int ca, uint32_t m, uint32_t d, int *neg)
 {
-    double tol = op == 0x30 ? 1.5 + 1e-6 : 0.5 + 1e-6;
+    uint32_t out = 0;
     for (int c = 0; c < 4; c++) {
         int sc, sac; masked(s, has_mask, ca, m, c, &sc, &sac);
-        int sA, sAa; masked(s, has_mask, ca, m, 3, &sA, &sAa);
+        int dc = ch(d, c), da = ch(d, 3), v;
+        if (op == 0x30) {
+            v = rnd255(sc, 255 - da) + rnd255(dc, 255 - sac) + rnd255(dc, sc);
+            if (v > 255) v = 255;
+        } else if (c == 3) {
+            v = rnd_div255(255L * da + 255L * sc - (long)sc * da);
+        } else {
+            long n = (255L - sac) * dc + (255L - da) * sc + blend_num(op, dc, da, sc, sac);
+            if (n < 0) { *neg = 1; n = 0; }
+            if (n > 65025) n = 65025;
+            v = rnd_div255(n);
+        }
+        out |= (uint32_t)v << (8 * c);
+    }
+    return out;
+}
+/* PDF 32000 11.3.5 blend functions B(cb, cs) on non-premultiplied colours in [0, 1] */
+static double pdf_B(int op, double cb, double cs)
+{
+    switch (op) {
+    case 0x30: return cb * cs;
+    case 0x31: return cb + cs - cb * cs;
+    case 0x32: return cb <= 0.5 ? cs * (2 * cb) : cs + (2 * cb - 1) - cs * (2 * cb - 1);      /* HardLight(cs, cb) */
+    case 0x33: return cb < cs ? cb : cs;
+    case 0x34: return cb > cs ? cb : cs;
+    case 0x37: return cs <= 0.5 ? cb * (2 * cs) : cb + (2 * cs - 1) - cb * (2 * cs - 1);
+    case 0x39: return fabs(cb - cs);
+    case 0x3a: return cb + cs - 2 * cb * cs;
+    }
+    return 0;
+}
+/* real-valued PDF equation 11.3.6 on premultiplied operands (masked source as the 8-bit pipeline rounds it);
+ * tolerance = the proved bound: 127/255 of a step (Props/C01Pdf.lean pdf_channel_near, pdf_alpha_near),
+ * Multiply 381/255 (multiply_channel_near).  Returns 1 if fine or no claim (not premultiplied). */
+static int spec_blend_real(int op, uint32_t s, int has_mask, int ca, uint32_t m, uint32_t d, uint32_t got, char *why)
+{
+    double tol = (op == 0x30 ? 381.0 : 127.0) / 255.0 + 1e-9;
+    for (int c = 0; c < 4; c++) {
+        int sc, sac; masked(s, has_mask, ca, m, c, &sc, &sac);
         int dc = ch(d, c), da = ch(d, 3);
         if (sc > sac || dc > da) return 1;                  /* not premultiplied: no claim */
-        double r;
-        if (c == 3) r = (da * 255.0 + sA * 255.0 - (double)sA * da) / 255.0;
-        else r = ((255.0 - sac) * dc + (255.0 - da) * sc + blendf(op, dc, da, sc, sac)) / 255.0;
-        if (r > 255) r = 255;
-        if (r < 0) r = 0;
-        if (fabs(r - ch(got, c)) > tol) { sprintf(why, "channel %d: real-valued PDF result %.4f, got %d", c, r, ch(got, c)); return 0; }
+    }
+    n_blend_real_claim++;
+    for (int c = 0; c < 4; c++) {
+        int sc, sac; masked(s, has_mask, ca, m, c, &sc, &sac);
+        double cs = sc / 255.0, as = sac / 255.0, cb = ch(d, c) / 255.0, ab = ch(d, 3) / 255.0, r;
+        if (c == 3 && op != 0x30) r = as + ab - as * ab;
+        else r = (1 - as) * cb + (1 - ab) * cs + ((as == 0 || ab == 0) ? 0 : as * ab * pdf_B(op, cb / ab, cs / as));
+        r *= 255.0;
+        if (fabs(r - ch(got, c)) > tol) { sprintf(why, "channel %d: real-valued PDF result %.6f, got %d (tolerance %.6f)", c, r, ch(got, c), tol); return 0; }
     }
     return 1;
 }
@@ -245,11 +293,22 @@ static void oracle_batch(batch_t *b, FILE *fo)
             uint32_t want = spec_store(df, spec_pd(b->op, s, has_mask, b->ca, m, d)) & def;
             if (want != b->out[i])
                 fprintf(fo, "ORACLE %ld spec %u got %u (fetched s=%08x m=%08x d=%08x)\n", lineno + i + 1, want, b->out[i], s, m, d);
-        } else if (is_blend(b->op) && PIXMAN_FORMAT_BPP(df) == 32 && PIXMAN_FORMAT_A(df) == 8) {
-            /* only where the store loses nothing: compare the stored channels directly */
-            uint32_t got = spec_fetch(df, b->out[i]); char why[128];
-            if (!spec_blend_check(b->op, s, has_mask, b->ca, m, d, got, why))
-                fprintf(fo, "ORACLE %ld blend %s (fetched s=%08x m=%08x d=%08x)\n", lineno + i + 1, why, s, m, d);
+        } else if (is_blend(b->op)) {
+            int neg = 0;
+            uint32_t px = spec_blend_exact(b->op, s, has_mask, b->ca, m, d, &neg);
+            uint32_t want = spec_store(df, px) & def;
+            n_blend_exact++;
+            if (neg)
+                fprintf(fo, "ORACLE %ld blend negative numerator (fetched s=%08x m=%08x d=%08x)\n", lineno + i + 1, s, m, d);
+            else if (want != b->out[i])
+                fprintf(fo, "ORACLE %ld blend exact integer rule %u got %u (fetched s=%08x m=%08x d=%08x)\n", lineno + i + 1, want, b->out[i], s, m, d);
+            else if (PIXMAN_FORMAT_BPP(df) == 32 && PIXMAN_FORMAT_A(df) == 8) {
+                /* only where the store loses nothing: compare the stored channels with the real-valued equation */
+                uint32_t got = spec_fetch(df, b->out[i]); char why[160];
+                n_blend_real++;
+                if (!spec_blend_real(b->op, s, has_mask, b->ca, m, d, got, why))
+                    fprintf(fo, "ORACLE %ld blend %s (fetched s=%08x m=%08x d=%08x)\n", lineno + i + 1, why, s, m, d);
+            }
         }
     }
 }
@@ -394,6 +453,7 @@ int main(int argc, char **argv)
             batch_t b; gen_c01(&b);
             run_batch(&b); emit_batch(&b, fi, fr); oracle_batch(&b, fo); lineno += b.n;
         }
+        fprintf(fo, "STAT blend_exact %ld blend_real_compared %ld blend_real_premultiplied %ld\n", n_blend_exact, n_blend_real, n_blend_real_claim);
         fclose(fi); fclose(fr); fclose(fo); return 0;
     }
     if (argc >= 4 && !strcmp(argv[1], "exec")) {
@@ -415,6 +475,7 @@ int main(int argc, char **argv)
             b.s[b.n] = strtoul(tok[5], 0, 10); b.m[b.n] = strtoul(tok[6], 0, 10); b.d[b.n] = strtoul(tok[7], 0, 10); b.n++;
         }
         FLUSH();
+        if (fo) fprintf(fo, "STAT blend_exact %ld blend_real_compared %ld blend_real_premultiplied %ld\n", n_blend_exact, n_blend_real, n_blend_real_claim);
         return 0;
     }
     fprintf(stderr, "usage: composite gen <seed> <nbatches> <mode> <ops> <impl> <oracle> | composite exec <ops> <impl> [oracle]\n");
